@@ -159,7 +159,15 @@ impl Prop for C09 {
     }
 
     fn execute(&self, sc: &StreamScenario) -> RunReport {
-        let mut r = exec_and_filter(sc, &owns);
+        // In runs with dropped reads only the one thing cancellation can do to the gate counts
+        // (a due version error that never surfaces); a wrong value or decision there may just
+        // as well be the stream corrupted by a cancellation defect, which is C19's business.
+        let cancels = sc.ops.iter().any(|o| matches!(o, AppOp::ReadCancel { .. }));
+        let owns_here = |c: &str| if cancels { c == "gate.rejection_lost" } else { owns(c) };
+        let mut r = exec_and_filter(sc, &owns_here);
+        if cancels {
+            r.probe("gate_runs_with_dropped_reads");
+        }
         if sc.verify_version {
             r.probe("gate_on_runs");
         } else if sc.explicit_gate {
